@@ -423,9 +423,37 @@ def _sample(case):
                          for lx in r['lexicons']]}
 
 
+def _large_enum(tier, shard, nshards):
+    """Lexicons that do not fit one insert batch (wn adds in batches of 1000 rows): the order of
+    the senses of an entry and of the members of a synset has to survive in them too."""
+    combos = [('senses', 1001, '1.0'), ('members', 300, '1.1')]
+    if tier != 'quick':
+        combos += [('senses', 2001, '1.3'), ('entries', 1001, '1.1'), ('synsets', 1001, '1.0'),
+                   ('sense_relations', 1001, '1.3')]
+    for i, (kind, n, v) in enumerate(combos):
+        if i % nshards == shard:
+            yield {'large': [kind, n], 'export_version': v}
+
+
+def _large_oracle(case):
+    from . import c01
+    kind, n = case['large']
+    res = c01.build_batch_doc(kind, n, '1.1' if kind == 'members' else '1.0')
+    return oracle({'resource': res, 'export_version': case['export_version'], 'bystanders': [],
+                   'style': None})
+
+
 SUBS = [
     Sub('export-reimport', oracle, _classify, strategy=lambda tier: _cases(),
         budget={'quick': 100, 'thorough': 900}, sample=_sample,
         fingerprint=lambda c: fingerprint([c['resource'], c['export_version']]),
         require_tags=('bystander:extension', 'bystander:same-ids', 'export-1.0', 'export-1.3')),
+    Sub('large-lexicon', _large_oracle,
+        lambda case: (True, [f'large:{case["large"][0]}:{case["large"][1]}',
+                             'export-' + case['export_version']]),
+        enumerate=_large_enum, purge_every=1,
+        exhaustive_note='constructed lexicons with more rows of one kind than one insert batch '
+                        '(1001 senses in entries of three, a synset with 300 members; thorough: '
+                        'further kinds)',
+        sample=lambda c: c),
 ]
